@@ -584,6 +584,8 @@ def _locate(data, skip):
     return state["who"]
 
 
+_GUARDS = {"chart_title": "has_title", "axis_title": "has_title", "legend": "has_legend", "text_frame": "has_text_frame", "data_labels": "has_data_labels",
+           "major_gridlines": "has_major_gridlines", "minor_gridlines": "has_minor_gridlines", "chart": "has_chart", "table": "has_table"}
 _CANDIDATES = {}
 _SEEN_IN = {}
 _SRC = {}
@@ -597,6 +599,7 @@ def _native_traversal(tier="quick", seed=0):
     obls = []
     evals = 0
     culprits = {}
+    guarded, guarded_seen = {}, {}
     srcs = _sources(tier)
     # pass 1: which accessors change anything at all (including documented ones), per deck
     for dname, data in srcs:
@@ -618,6 +621,21 @@ def _native_traversal(tier="quick", seed=0):
 
         def visit(o, n, checked=checked):
             key = next((k.__name__ for k in type(o).__mro__ if n in k.__dict__), type(o).__name__)
+            g_ = _GUARDS.get(n)
+            if g_ is not None and hasattr(type(o), g_) and guarded_seen.get((key, n), 0) < 3 and (key, n) not in guarded:
+                # the documented way to look without creating: `if x.has_title: x.chart_title ...` -- when the guard says the thing is
+                # there, reading it makes no non-empty change (whether or not the accessor is a documented creator otherwise)
+                try:
+                    there = getattr(o, g_) is True
+                except Exception:
+                    there = False
+                if there:
+                    guarded_seen[(key, n)] = guarded_seen.get((key, n), 0) + 1
+                    a0, f0 = cheap(), _fingerprint(prs)
+                    v = getattr(o, n)
+                    if cheap() != a0 and _fingerprint(prs) != f0:
+                        guarded[(key, n)] = "%s: %s.%s is True, yet reading %s.%s made a non-empty change" % (dname, type(o).__name__, g_, type(o).__name__, n)
+                    return v
             if checked.get((key, n), 0) >= 3 or (key, n) in culprits and dname in culprits[(key, n)]:
                 return getattr(o, n)
             checked[(key, n)] = checked.get((key, n), 0) + 1
@@ -628,6 +646,12 @@ def _native_traversal(tier="quick", seed=0):
             return v
 
         evals += _walk(prs, visit)
+    for (cname_, name_), wit_ in sorted(guarded.items()):
+        oname_ = "C12.native.guarded_read.%s.%s" % (cname_, name_)
+        obls.append({"name": oname_, "base": oname_, "kind": "bounded", "backend": "native", "time": 0, "path": 0, "status": "refuted", "model": None,
+                     "replay": {"confirmed": True, "witness_class": "accessor-mutates", "detail": wit_, "input": [cname_, name_]}})
+    obls.append({"name": "C12.native.guarded_reads_do_not_create", "base": "C12.native.guarded_reads_do_not_create", "kind": "bounded", "backend": "native", "time": 0, "path": 0,
+                 "status": "refuted" if guarded else "discharged", **({"model": None, "replay": {"confirmed": True, "witness_class": "accessor-mutates", "detail": sorted(guarded.values())[0]}} if guarded else {})})
     _CANDIDATES[tier] = set(culprits)
     _SEEN_IN[tier] = culprits
     # pass 2: each candidate alone on fresh copies: is the change more than empty containers?
